@@ -127,10 +127,11 @@ def monitors(case, ji, job, real, L):
         triple("C05", N.vram_start(n + "_alloc"), N.vram_end(n + "_alloc"), N.vram_size(n + "_alloc"),
                check_order=not explicit)
         triple("C05", N.vram_start(n + "_noload"), N.vram_end(n + "_noload"), N.vram_size(n + "_noload"))
+        both = s["alloc_sections"] + s["noload_sections"]
         for part, lst in (("", s["alloc_sections"]), (".noload", s["noload_sections"])):
             for x in lst:
-                if lst.count(x) != 1:
-                    continue
+                if both.count(x) != 1:
+                    continue          # a section listed twice defines its symbols twice (KF-C01-dup-list)
                 triple("C05", N.sec_start(n, x), N.sec_end(n, x), N.sec_size(n, x))
                 a, b = S(N.sec_start(n, x)), S(N.sec_end(n, x))
                 if a is not None and b is not None and not (vs <= a and b <= ve):
@@ -193,7 +194,7 @@ def monitors(case, ji, job, real, L):
             if base is None:
                 continue
             for x in lst:
-                if lst.count(x) != 1:
+                if both.count(x) != 1:
                     continue
                 for which, sym, al1, al2 in (("start", N.sec_start(n, x), s["section_start_align"],
                                               s["sections_start_alignment"].get(x)),
